@@ -35,7 +35,8 @@ ASSUMPTIONS = [
 ]
 REQUIRED_MONITORS = ["born:gaussian-homodyne", "born:gaussian-heterodyne", "born:bosonic-homodyne", "born:walrus-sampler-args",
                      "born:fock-photon-counting", "born:fock-homodyne-grid", "cond:gaussian", "cond:bosonic", "cond:fock",
-                     "select:cross-backend", "layout:samples", "dark-counts", "ks:bosonic-sampler", "cond:bosonic-non-gaussian"]
+                     "select:cross-backend", "layout:samples", "dark-counts", "ks:bosonic-sampler", "cond:bosonic-non-gaussian",
+                     "born:bosonic-threshold", "cond:bosonic-threshold"]
 MAX_SKIP_FRACTION = 0.3
 
 
@@ -863,6 +864,107 @@ def nongauss_case(case, rep, env):
               meas["kind"], m, np.round(out, 5), "post-selected" if sel else "sampled", d, prob))
 
 
+def threshold_bosonic_case(case, rep, env):
+    """Bosonic threshold detection (one or both modes of an entangled two-mode state, Gaussian or cat-state based): the click
+    probability handed to the RNG must be 1 - <0|rho_m|0> of the state *at that moment* (second detector: conditional on the
+    first outcome), and the state afterwards must be the documented conditional state (no click: vacuum projection, click:
+    its complement), measured modes reset to vacuum.  Outcomes are scripted at np.random.choice."""
+    from .. import nongauss as ng, simrun
+
+    sf, ops = env["sf"], env["ops"]
+    V = lambda locus, kind, what, detail=None: rep.violation(locus, kind, what, case, detail)
+    D, C = 24, 8
+    spec, modes, clicks = case["ng"], case["modes"], case["clicks"]
+    sf.hbar = case.get("hbar", 2.0)
+    handed = []
+
+    def script(name, a, k, real):
+        if name == "np.random.choice" and len(handed) < len(clicks):
+            handed.append([float(x) for x in k.get("p", [np.nan, np.nan])])
+            return clicks[len(handed) - 1]
+        return NotImplemented
+
+    prog = ng.build(sf, ops, spec)
+    with prog.context as q:
+        ops.MeasureThreshold() | tuple(q[m] for m in modes)
+    eng = sf.Engine("bosonic")
+    try:
+        with RandomTap(script):
+            res = eng.run(prog)
+    except Exception as e:
+        V("bosonic.measure_threshold", "exception:" + type(e).__name__, "MeasureThreshold on modes %s raised %s: %s" % (
+            modes, type(e).__name__, str(e)[:150]))
+        return
+    f = ng.reference(spec, D)
+    if f.tail(C + 6) > 1e-7:
+        rep.skip("nongauss reference truncation")
+        return
+    rho = f.rho.copy()
+    P0 = np.zeros((D, D))
+    P0[0, 0] = 1.0
+    I = np.eye(D)
+    for step, (m, c) in enumerate(zip(modes, clicks)):
+        Pm = np.kron(P0, I) if m == 0 else np.kron(I, P0)
+        proj = Pm @ rho @ Pm
+        p0 = float(np.real(np.trace(proj)) / np.real(np.trace(rho)))
+        rep.monitor("born:bosonic-threshold")
+        if step >= len(handed):
+            V("bosonic.measure_threshold", "no-rng-draw", "no np.random.choice draw observed for detector %d" % step)
+            return
+        got = handed[step]
+        if abs(got[0] - p0) > 1e-6 or abs(got[1] - (1 - p0)) > 1e-6:
+            V("bosonic.measure_threshold", "born-parameters" + (":second-detector" if step else ""),
+              "threshold detector on mode %d draws from p(no click, click) = %s; the state at that moment has <0|rho|0> = %.9f%s" % (
+                  m, np.round(got, 9).tolist(), p0, " (given the first detector's outcome %d)" % clicks[0] if step else ""))
+            return
+        pc = p0 if c == 0 else 1 - p0
+        if pc < 1e-3:
+            rep.observe("threshold.skipped:scripted-outcome-probability-below-1e-3")
+            return
+        if c == 0:
+            rho = proj / p0
+        else:
+            r4 = rho.reshape(D, D, D, D)
+            other = np.einsum("aiaj->ij", r4) if m == 0 else np.einsum("iaja->ij", r4)
+            full = np.kron(P0, other) if m == 0 else np.kron(other, P0)
+            rho = (full - proj) / (np.real(np.trace(full)) - np.real(np.trace(proj)))
+    samples = [int(x) for x in np.ravel(res.samples)]
+    order = sorted(range(len(modes)), key=lambda i: modes[i])
+    if samples != [clicks[i] for i in order]:
+        V("bosonic.measure_threshold", "returned-outcome", "scripted clicks %s on modes %s, Result.samples = %s (ascending mode order expected)" % (
+            clicks, modes, samples))
+        return
+    ref = rho.reshape([D] * 4)[tuple(slice(0, C) for _ in range(4))].reshape(C * C, C * C)
+    snap = simrun.Snap(eng.backend)
+    gotdm = ng.bosonic_dm(snap, C)
+    rep.monitor("cond:bosonic-threshold")
+    rep.seen("threshold-patterns", "modes=%s clicks=%s" % (tuple(modes), tuple(clicks)))
+    d = float(np.max(np.abs(gotdm - ref)))
+    rep.dev("bosonic.threshold-conditional-state", d, 1e-6)
+    if d > 1e-6:
+        V("bosonic.measure_threshold", "conditional-state:" + ("click" if clicks[-1] else "no-click"),
+          "after threshold detection of modes %s with outcomes %s the bosonic state differs from the conditional state "
+          "(no click: <0|rho|0>/p0, click: (Tr_m rho - <0|rho|0>)/(1-p0), measured modes in vacuum) by %.3e in the Fock basis" % (
+              modes, clicks, d))
+
+
+def gen_threshold_case(rng):
+    from .. import nongauss as ng
+
+    spec = ng.gen_case(rng, allow_approx=False)
+    spec["n"] = 2
+    if rng.random() < 0.4:
+        # purely Gaussian input as well
+        spec["cmds"] = [{"op": "Coherent", "p": [float(rng.uniform(0.2, 0.8)), float(rng.uniform(0, 6.28))], "m": [0]},
+                        {"op": "Sgate", "p": [float(rng.uniform(-0.3, 0.3)), float(rng.uniform(0, 6.28))], "m": [1]}]
+    if not any(c["op"] == "BSgate" for c in spec["cmds"]):
+        spec["cmds"].append({"op": "BSgate", "p": [float(rng.uniform(0.4, 1.2)), float(rng.uniform(0, 6.28))], "m": [0, 1], "dag": False})
+    k = 1 if rng.random() < 0.6 else 2
+    modes = [int(x) for x in rng.permutation(2)[:k]]
+    return {"kind": "threshold-bosonic", "ng": spec, "modes": modes, "clicks": [int(rng.integers(2)) for _ in modes],
+            "hbar": float(rng.choice([2.0, 2.0, 1.0]))}
+
+
 def gen_nongauss_case(rng):
     from .. import nongauss as ng
 
@@ -902,15 +1004,22 @@ def dispatch(case, rep, env):
             nongauss_case(case, rep, env)
         finally:
             env["sf"].hbar = 2
+    elif case["kind"] == "threshold-bosonic":
+        try:
+            threshold_bosonic_case(case, rep, env)
+        finally:
+            env["sf"].hbar = 2
 
 
 def run_shard(shard, rep):
     env = load()
     rng = np.random.default_rng([shard["seed"], shard["id"], 6])
     for i in range(shard["n"]):
-        case = gen_case(rng, i) if i % 6 != 5 else gen_nongauss_case(rng)
+        case = gen_case(rng, i) if i % 6 != 5 else (gen_nongauss_case(rng) if i % 12 == 5 else gen_threshold_case(rng))
         if case["kind"] == "nongauss":
             rep.case(["nongauss", rnd(case["ng"], 5), rnd(case["meas"], 5)], True)
+        if case["kind"] == "threshold-bosonic":
+            rep.case(["threshold-bosonic", rnd(case["ng"], 5), case["modes"], case["clicks"]], True)
         try:
             dispatch(case, rep, env)
         except Exception as e:
